@@ -621,6 +621,39 @@
         assert_inv(&b, &post);
     }
 
+    // ---- bounded history: the overflow indication must survive a confirmation that only releases events of ANOTHER type
+    // (C13: "the overflow bit is set from the moment an event is discarded until a confirmation leaves every type below
+    // capacity"). clear_written on stores of >= 2 records is beyond the solver from an arbitrary pre-state (see above),
+    // this history reaches the relevant state from the empty store with symbolic record contents.
+    // @harness ids=C03,C13 tier=quick kind=bounded bound="history: new(max_binary=1,max_counter=1); insert bin; insert bin (overflow); insert counter; select counters; write_events; clear_written - record contents symbolic" units=outstation::database::details::event::buffer::EventBuffer::clear_written,outstation::database::details::event::buffer::EventBuffer::is_any_full,outstation::database::details::event::buffer::EventBuffer::select_by_type timeout=900 stubs=1 note="after an overflow in the binary type, confirming a response that carried only a counter event releases exactly that event (reported once) and leaves the overflow indication set because the binary type is still at capacity; confirming the binary event as well clears it"
+    #[kani::proof]
+    #[kani::unwind(4)]
+    #[kani::stub(Event::write, Event::verif_stub_write)]
+    fn vk_c13_history_overflow_survives_unrelated_confirm() {
+        let mut b = EventBuffer::new(EventBufferConfig::new(1, 0, 0, 1, 0, 0, 0, 0));
+        let (m1, m2, k1) = (any_binary(), any_binary(), any_counter());
+        let r1 = b.insert(kani::any(), any_class(), &m1, EventBinaryInputVariation::Group2Var1);
+        let r2 = b.insert(kani::any(), any_class(), &m2, EventBinaryInputVariation::Group2Var1);
+        assert!(r1 == Ok(0) && r2 == Err(InsertError::Overflow { created: 1, discarded: 0 }) && b.is_overflown());
+        let cc = any_class();
+        let r3 = b.insert(kani::any(), cc, &k1, EventCounterVariation::Group22Var1);
+        assert!(r3 == Ok(2));
+        let n = b.select_by_type::<measurement::Counter>(None, None);
+        unsafe { W_RES = [true, true, true, true]; W_CALLS = 0; }
+        let mut backing = [0u8; 16];
+        let mut cursor = WriteCursor::new(&mut backing);
+        let w = b.write_events(&mut cursor);
+        assert!(n == 1 && w == Ok(1));
+        unsafe { N_CLEARED = 0; }
+        let mut app = GhostApp;
+        let count = b.clear_written(&mut app);
+        assert!(count == 1 && unsafe { N_CLEARED } == 1 && unsafe { CLEARED[0] } == 2, "exactly the confirmed counter event is released and reported");
+        assert!(b.is_overflown(), "binary type still at capacity: overflow indication stays");
+        let u = b.unwritten_classes();
+        assert!(u.class1 || u.class2 || u.class3, "the unreported binary event is still announced");
+        kani::cover!(true);
+    }
+
 //@@INSTANCES@@
     // @harness ids=C03,C13,C01 tier=quick kind=proof units=outstation::database::details::event::buffer::EventBuffer::new timeout=120 note="a new store (max_binary=2, max_counter=1) satisfies the invariant, is empty, announces nothing (base case)"
     buf_harness!(vk_c03_buf_new_a2_b1, new_contract, 1, 2, 1, 3);
